@@ -226,6 +226,8 @@ def gen_plan(rng):
         # enumerated inside the recovery op
         "double": [rng.randrange(10 ** 6)
                    for _ in range(rng.choice((0, 1, 1, 2)))],
+        # ~3% of workloads: an interrupt at every traced line of one op
+        "int_sweep": rng.randrange(10 ** 6) if rng.random() < 0.03 else None,
     }
 
 
@@ -662,6 +664,7 @@ def run_workload(plan, srcs, fault=None, interrupt=None, twin=None,
                         out = R.do(k, op)
                     if not it.fired:
                         R.bump("interrupt_not_reached")
+                        R.stats["line_count_of_op"] = it.count
                 else:
                     out = R.do(k, op)
             except SimCrash:
@@ -1207,7 +1210,17 @@ def _driver(plan, tier):
                             "phase": "double_fault"})
                 if len(failures) > 20:
                     break
-        for it in plan["interrupts"]:
+        # ---- interrupt sweep: every traced line of one op (a few workloads)
+        sweep = []
+        if plan.get("int_sweep") is not None:
+            k_ = plan["int_sweep"] % (len(plan["ops"]) + 2)
+            cnt = fork_call(run_workload, (plan, srcs, None, [k_, 10 ** 9], twin),
+                            timeout=60)["stats"].get("line_count_of_op", 0)
+            stride = max(1, -(-cnt // 150))
+            sweep = [[k_, n_] for n_ in range(1, cnt + 1, stride)]
+            bump("interrupt_sweeps")
+            bump("interrupt_sweep_positions", len(sweep))
+        for it in list(plan["interrupts"]) + sweep:
             if it[0] >= len(plan["ops"]) + 2:
                 continue
             res = fork_call(run_workload, (plan, srcs, None, it, twin),
